@@ -8,14 +8,20 @@ PERSISTENT_EVENTS = ("PaymentSent", "PaymentFailed", "PaymentPathSuccessful", "P
                      "PaymentForwarded", "ChannelClosed", "PaymentClaimable", "HTLCHandlingFailed")
 
 
-def gen_scenario(rng, crash):
-    """A short payment scenario (send / forward over 3 nodes / receive / claim / fail, sync and async
-    persistence, disconnections) in which node `crash` will be restarted. Returns (mode, ops)."""
+FAMILIES = ("collide", "claimed", "random")
+
+
+def gen_scenario(rng, crash, family=None):
+    """A short payment scenario (send / forward over 4 nodes / receive / claim / fail, sync and async
+    persistence, disconnections) in which node `crash` will be restarted. Returns (mode, ops).
+    family: one of FAMILIES (the caller stratifies so that a small run still has every family) or None = draw."""
     relaxed = rng.chance(1, 4)
-    family = rng.below(10)
-    if family < 3:
+    if family is None:
+        f = rng.below(10)
+        family = "collide" if f < 3 else "claimed" if f < 5 else "random"
+    if family == "collide":
         return ("relaxed" if relaxed else "strict"), gen_collide(rng, crash)
-    if family < 5:
+    if family == "claimed":
         return ("relaxed" if relaxed else "strict"), gen_closed_claim(rng, crash)
     ops = []
     flavour = rng.below(4)
@@ -117,18 +123,23 @@ def gen_closed_claim(rng, crash):
     restart; used with failing event handlers and a second crash before the manager is rewritten."""
     peer = rng.choice([0, 2, 3] if crash == 1 else [1])
     dst = peer if crash == 1 else rng.choice([x for x in (0, 2, 3) if x != crash] + [1])
-    ops = ["send %d %d %d" % (crash, dst, rng.choice([1000000, 3000000]))]
+    src = crash
+    if crash == 1 and rng.chance(1, 2):
+        # the restarting hub forwards instead of sending: PaymentForwarded is the regenerated event
+        src = rng.choice([x for x in (0, 2, 3) if x != peer])
+    ops = ["send %d %d %d" % (src, dst, rng.choice([1000000, 3000000]))]
     if rng.chance(1, 2):
         other = rng.choice([x for x in (0, 2, 3) if x != crash])
         ops.append("send %d %d %d" % (other, crash if rng.chance(1, 2) else rng.choice([y for y in (0, 1, 2, 3) if y != other]), 2000000))
     _run_to_claimable(ops, rng.range(14, 24))
-    if rng.chance(1, 2):
+    if rng.chance(3, 4):
+        # the application is busy: the events raised by the claim are still unhandled at the crash
         ops.append("evhold %d on" % crash)
     ops.append("claim %d 0" % dst)
     ops += ["dany 0"] * rng.range(1, 4)
     first = peer if crash == 1 else 1
     idx = {0: 0, 2: 1, 3: 2}[first] if crash == 1 else 0
-    ops.append("fc %d %d" % (crash, idx) if rng.chance(2, 3) else "dany 0")
+    ops.append("fc %d %d" % (crash, idx) if rng.chance(1, 2) else "dany 0")
     for _ in range(rng.range(2, 10)):
         ops.append(rng.choice(["dany 0", "dany 1", "fwdany 0", "cany 0", "claim %d 0" % dst]))
     return ops
@@ -158,6 +169,7 @@ def enumerate_trials(rng, mode, ops, per_point, crash, event_steps=()):
         # second crash BEFORE the manager is rewritten (the same stale bytes again), with and without lag
         combos.append((0, "max", 0, 2))
         combos.append((min(k, rng.range(1, 8)), "max", 0, 2))
+        combos.append((min(k, rng.range(4, 16)), rng.choice(["max", "min"]), 0, 2))
         combos = sorted(set(combos))
         if per_point and len(combos) > per_point:
             # always keep the two extremes (and the pending-events snapshot where there are events), sample the rest
@@ -222,14 +234,21 @@ def judge(r):
     V = []
     st = {"handler_failures": 0, "recrash_stale_manager": 0, "scripted_fc": 0, "path_legacy": 0, "path_recon": 0, "path_default": 0,
           "stale_channels": 0, "resumed_channels": 0, "replayed_updates": 0, "closed_onchain": 0, "payments": 0,
-          "payments_terminal": 0, "exempt_payments": 0, "redelivery_checked": 0, "recrash": 0, "lagged": 0, "inflight_at_crash": 0}
+          "payments_terminal": 0, "exempt_payments": 0, "redelivery_checked": 0, "recrash": 0, "lagged": 0, "inflight_at_crash": 0, "refused_checked": 0}
 
     def bad(j, what, key=None):
         V.append({"judge": j, "what": what, "key": key})
 
+    # Known finding F6 (only on the not-yet-enabled load path that rebuilds the manager's HTLC maps from the
+    # channels): a committed inbound HTLC whose failure (or claim) already sits in the channel's holding cell is
+    # decoded and forwarded AGAIN after the reload, because inbound_htlcs_pending_decode() lacks the
+    # "resolution pending in the holding cell" filter that inbound_forwarded_htlcs() has.
+    f6 = r.get("path") == "recon" and any(s.get("mgr_holding_cell", 0) > 0 and s["mgr_latest"] >= s["mon"] for s in r.get("snap", []))
+    f6key = "F6-recon-path-reforwards-htlc-with-resolution-in-holding-cell" if f6 else None
     if r.get("panic"):
         bad("panic" if r.get("phase") not in ("reload", "recrash") else "read",
-            "phase %s: %s" % (r.get("phase"), r["panic"][:400]))
+            "phase %s: %s" % (r.get("phase"), r["panic"][:400]),
+            key=f6key if "If we go to prune an inbound HTLC it should be present" in r["panic"] else None)
         return V, st
     if not r.get("read_ok"):
         bad("read", "ChannelManager read did not succeed")
@@ -296,7 +315,7 @@ def judge(r):
     before0 = evs[:len(evs) - n_after0] if n_after0 <= len(evs) else []
     f4_chans = set()
     for d in r["disk"]:
-        if d["chosen"] < d["handed"] and any(e[0] == x and e[1] == "ChannelClosed" and e[2].startswith(d["chan"]) for e in before0):
+        if d["chosen"] < d["handed"] and (not d.get("open_at_crash", True) or any(e[0] == x and e[1] == "ChannelClosed" and e[2].startswith(d["chan"]) for e in before0)):
             f4_chans.add(d["chan"])
     f4key = "F4-holder-commitment-broadcast-from-unpersisted-monitor-state" if f4_chans else None
     # ---- no collateral damage: a channel may close only because its manager state was stale, because the scenario
@@ -332,6 +351,16 @@ def judge(r):
         failed_after = [e for e in r.get("events_after", []) if e[0] == p["from"] and e[1] == "PaymentFailed" and e[2] == tag]
         f3 = bool(p["from"] == x and sent_before and failed_after and p["first_chan"] in stale_chans and p["sent_step"] <= r["k"] - r["lag"])
         f3key = "F3-payment-failed-after-sent-when-stale-manager-predates-fulfil" if f3 else None
+        # Known finding F5: the stale manager snapshot still had HTLCs in the holding cell of a channel that is now
+        # closed as OutdatedChannelManager. force_shutdown() returns them as dropped_outbound_htlcs and the read path
+        # fails them backwards without asking the (newer) ChannelMonitor, which knows that they were committed to the
+        # counterparty afterwards: the counterparty can still claim them.
+        through_x = p["from"] == x or (x == 1 and p["to"] != 1)
+        f5 = through_x and any(s.get("mgr_holding_cell", 0) > 0 and 0 <= s["mgr_latest"] < s["mon"] for s in r["snap"])
+        if f3key is None and f5:
+            f3key = "F5-stale-manager-fails-holding-cell-htlc-the-monitor-knows-as-committed"
+        if f3key is None and f6 and (x == 1 and p["from"] != 1 and p["to"] != 1):
+            f3key = f6key
         if sent and failed:
             bad("payment", "payment %s got both PaymentSent and PaymentFailed%s" % (tag, " (PaymentSent before the crash, PaymentFailed after restarting from a manager snapshot older than the fulfil)" if f3 else ""), key=f3key)
         if sent and tag not in r["claim_ops"]:
@@ -363,6 +392,15 @@ def judge(r):
                 got.remove((name, detail))
             else:
                 bad("events", "event %s %s was pending in the serialized ChannelManager but was not delivered again after the restart" % (name, detail))
+    # ---- an event the application's handler refused (Err(ReplayEvent)) is not lost: it is handed to the handler
+    # again, also when the node crashes once more before the manager is rewritten
+    after_x = [(e[1], e[2]) for e in r.get("events_after", []) if e[0] == x]
+    for ref in r.get("handler_refused", []):
+        if len(ref) < 3 or ref[1] not in ("PaymentSent", "PaymentFailed", "PaymentClaimed", "PaymentForwarded"):
+            continue
+        st["refused_checked"] += 1
+        if (ref[1], ref[2]) not in after_x:
+            bad("events", "event %s %s was refused by the event handler (Err(ReplayEvent)) during recovery and never delivered again" % (ref[1], ref[2]))
     # ---- after everything: nothing stuck when no channel had to go on chain
     for c in r["final_chans"]:
         if c["in"] or c["out"]:
